@@ -86,11 +86,12 @@ func walkSteps(steps []*planner.QueryPlanStep, f func(*planner.QueryPlanStep)) {
 }
 
 // c02Check: per translation, independent of data. Oracle from the statement:
-//  (1) each sub-request parses and validates against ITS service's schema (gqlparser: unknown
-//      type/field/argument, undeclared variable, variable type vs position are validation rules);
-//  (2) every client variable a sub-request uses is forwarded (VariablesList ⊇ used variables);
-//  (3) every client-selected field is selected by some sub-request sent to a service that declares it;
-//  (4) sub-requests add only id/__typename (and the node wrapper), registered for removal unless client-selected.
+//
+//	(1) each sub-request parses and validates against ITS service's schema (gqlparser: unknown
+//	    type/field/argument, undeclared variable, variable type vs position are validation rules);
+//	(2) every client variable a sub-request uses is forwarded (VariablesList ⊇ used variables);
+//	(3) every client-selected field is selected by some sub-request sent to a service that declares it;
+//	(4) sub-requests add only id/__typename (and the node wrapper), registered for removal unless client-selected.
 func c02Check(ctx *Ctx, idx int, cs coreCase) {
 	cf, err := buildCoreFedCase(cs)
 	if err != nil {
